@@ -18,6 +18,7 @@ Assumptions (stated, not proved here):
   * the `int32` counter does not wrap: fewer than 2^31 sequence numbers are drawn on one session.
 -/
 import Teleport.Lemmas.Calls
+import Teleport.Gen.CallPath
 namespace Teleport
 namespace C01
 open Teleport.Calls
@@ -127,6 +128,54 @@ example : (runEvs demoH demoHm (connect (connect [])) demoSchedule).map
 /-- ... and its final state is reachable, so all the theorems above speak about it. -/
 example : ∀ t, runEvs demoH demoHm (connect (connect [])) demoSchedule = some t → Reach demoH demoHm t :=
   fun _ ht => Reach.run (Reach.connect (Reach.connect Reach.init)) ht
+
+/-! ## tie A: the statement shape of the call path (`Teleport.Gen.CallPath`, regenerated from
+`session.go` / `context.go` on every run by `srcfacts`). Each theorem states "the extracted fact = the
+shape Model/Calls assumes"; a change of that shape in the Go source changes the generated list and the
+theorem no longer checks. -/
+
+/-- keep only the landmarks named in `ks` (the order relative to other landmarks is not the fact). -/
+def proj (ks l : List String) : List String := l.filter ks.contains
+
+/-- **Model step `alloc` is one atomic step.** `Calls.estep (.alloc ..)` increments the end's counter and
+    hands the new value to the goroutine in ONE transition (`ctr := x.ctr + 1`, caller gets `x.ctr + 1`),
+    which is what `C01_seq_injective` rests on. The code justifies it iff the value given to the single
+    `output.SetSeq(...)` of `AsyncCall` and of `Push` IS the result of `atomic.AddInt32(&s.seq, 1)` (directly
+    or through a variable with exactly that one definition), the `seq` field is mentioned nowhere else in
+    the two functions (no plain read or write beside the atomic add), the pending table is keyed by that
+    same variable, and `bindReply` looks the call up by the received header's `Seq()`. -/
+theorem C01_callpath_seq_atomic :
+    Gen.callPath_missing = [] ∧
+    Gen.asyncCall_seq_source = ["atomic.AddInt32(&recv.seq, 1)"] ∧ Gen.asyncCall_seq_refs = 1 ∧
+    Gen.push_seq_source = ["atomic.AddInt32(&recv.seq, 1)"] ∧ Gen.push_seq_refs = 1 ∧
+    Gen.asyncCall_store_key = ["the sequence variable"] ∧
+    Gen.bindReply_lookup_key = ["param.Seq()"] := by
+  decide
+
+/-- **Model order `alloc < store < write`.** `Calls.CPc` has the program counters `alloc` (after the
+    atomic add) and `stored` (after `callCmdMap.Store`, before `s.write`); `Caller.canWrite` lets a CALL be
+    written only from `stored`, a PUSH from `alloc`. So a reply can only arrive for a sequence number
+    whose entry is already in the table (`C01_result_is_own_reply`, `C01_bound_slot_is_own_reply`). The
+    code justifies it iff in `AsyncCall` the three landmarks occur exactly once each and in this order,
+    and in `Push` the allocation precedes the write. -/
+theorem C01_callpath_store_before_write :
+    Gen.callPath_missing = [] ∧
+    proj ["seq.alloc", "table.store", "write"] Gen.asyncCall_landmarks = ["seq.alloc", "table.store", "write"] ∧
+    proj ["seq.alloc", "table.store", "write"] Gen.push_landmarks = ["seq.alloc", "write"] := by
+  decide
+
+/-- **Model step `write` appends one WHOLE frame.** In `Calls.estep (.write n)` the frame is appended to
+    the direction's FIFO in one transition. The code justifies it iff `session.write` loads and checks the
+    status, takes `writeLock`, defers its release and calls `socket.WriteMessage` exactly once, lexically
+    inside the locked region (no early unlock, not in a closure), and EVERY `.WriteMessage(` call of the
+    root package (the other one is `doSend`, the pre-session sender) sits inside such a region. (That one
+    `WriteMessage` is one `Write` on the connection is `C05_frames_single_write`.) -/
+theorem C01_callpath_write_whole_frame :
+    Gen.callPath_missing = [] ∧
+    Gen.write_landmarks = ["status.load", "status.check", "writeLock.lock", "defer writeLock.unlock", "WriteMessage"] ∧
+    Gen.writeMessage_sites.all (fun s => s.2 == "locked") = true ∧
+    (Gen.writeMessage_sites.filter (fun s => s.1 == "session.write")).length = 1 := by
+  decide
 
 end C01
 end Teleport
